@@ -79,6 +79,27 @@ func newLifeEnv(queueCap int) *lifeEnv {
 	return &lifeEnv{mc: mc, conn: conn}
 }
 
+// newLifeEnvOwnReader: like newLifeEnv, but the reader goroutine is started here so that its end can be
+// observed directly (done is closed when Conn.ReadFrom returns)
+func newLifeEnvOwnReader(queueCap int) (*lifeEnv, chan struct{}) {
+	mc := newMemConn()
+	info := testInfo()
+	info.ChannelPackageQueueSize = queueCap
+	conn, _ := tds.VerifNewConn(context.Background(), mc, info, false)
+	done := make(chan struct{})
+	go func() { conn.ReadFrom(); close(done) }()
+	return &lifeEnv{mc: mc, conn: conn}, done
+}
+
+func readerEnded(done chan struct{}) bool {
+	select {
+	case <-done:
+		return true
+	case <-time.After(700 * time.Millisecond):
+		return false
+	}
+}
+
 // feedDone feeds n DONE(MORE) packages on channel ch, each in its own packet, the last with EOM
 // if eom is set (then the channel appends the synthetic final DONE).
 func (e *lifeEnv) feedDone(ch, n int, eom bool) {
@@ -339,10 +360,33 @@ func lifeImpl(line string) string {
 			e.mc.feed(packetize(wDone(0xFD, 0, 0, 0), nil, 4, 0))
 		}
 		return watchdog(wd, func() string { ch.Close(); return "close=ok" })
+	case "reader-exit-unknown":
+		// n packets for a channel that does not exist (late answers after the channel was closed, the rest
+		// of an abandoned response), nobody reads the connection's errors, then Conn.Close: the reader ends
+		n := arg(2)
+		e, done := newLifeEnvOwnReader(100)
+		ch := e.conn.VerifNewChannel(0)
+		// the channel is closed first (the peer answers the logout): no channel is left whose Close would
+		// read the connection's error queue
+		e.mc.feed(packetize(wDone(0xFD, 0, 0, 0), nil, 4, 0))
+		if out := watchdog(wd, func() string { ch.Close(); return "close=ok" }); out != "close=ok" {
+			return out
+		}
+		for i := 0; i < n; i++ {
+			e.mc.feed(packetize(wDone(0xFD, 1, 0, i), nil, 4, 0)) // late packets for the channel that is gone
+		}
+		for i := 0; i < 300 && len(e.conn.VerifErrCh()) < n && len(e.conn.VerifErrCh()) < 10; i++ {
+			time.Sleep(time.Millisecond)
+		}
+		time.Sleep(5 * time.Millisecond)
+		out := watchdog(wd, func() string { e.conn.Close(); return "connclose=ok" })
+		if readerEnded(done) {
+			return out + " reader=ended"
+		}
+		return out + " reader=alive"
 	case "reader-exit":
 		nerr := arg(2)
-		g0 := runtime.NumGoroutine()
-		e := newLifeEnv(100)
+		e, done := newLifeEnvOwnReader(100)
 		_ = e.conn.VerifNewChannel(0)
 		e.mc.end() // peer closes: every header read now fails with EOF
 		for i := 0; i < 300 && len(e.conn.VerifErrCh()) < nerr; i++ {
@@ -350,15 +394,7 @@ func lifeImpl(line string) string {
 		}
 		e.mc.feed(packetize(wDone(0xFD, 0, 0, 0), nil, 4, 0))
 		out := watchdog(wd, func() string { e.conn.Close(); return "connclose=ok" })
-		ended := false
-		for i := 0; i < 300; i++ {
-			if runtime.NumGoroutine() <= g0 {
-				ended = true
-				break
-			}
-			time.Sleep(2 * time.Millisecond)
-		}
-		if ended {
+		if readerEnded(done) {
 			return out + " reader=ended"
 		}
 		return out + " reader=alive"
@@ -373,7 +409,7 @@ func lifeOracle(line, out string) string {
 	}
 	if strings.Contains(out, "blocked") {
 		switch f[1] {
-		case "close-pending", "close-errors", "closed-ops", "double-close", "conn-close", "reader-exit":
+		case "close-pending", "close-errors", "closed-ops", "double-close", "conn-close", "reader-exit", "reader-exit-unknown":
 			return "Close returns in bounded time whatever the state of the receive queue and the peer"
 		}
 		return "a call with a cancelled context returns promptly"
@@ -446,7 +482,7 @@ func lifeOracle(line, out string) string {
 		if kv["reader"] != "ended" {
 			return "closing the connection ends the reader"
 		}
-	case "reader-exit":
+	case "reader-exit", "reader-exit-unknown":
 		if kv["reader"] != "ended" {
 			return "closing the connection ends the reader"
 		}
@@ -504,6 +540,10 @@ func init() {
 			}
 			for _, n := range []int{0, 3, 10} {
 				emit(Case{Line: fmt.Sprintf("life reader-exit %d", n), Kind: "reader-exit"})
+				emit(Case{Line: fmt.Sprintf("life reader-exit-unknown %d", n+3), Kind: "reader-exit"})
+				for k := 11; k <= 14; k++ { // just beyond the capacity of the error queue (10)
+					emit(Case{Line: fmt.Sprintf("life reader-exit-unknown %d #%d", k, n), Kind: "reader-exit"})
+				}
 			}
 			for _, n := range []int{0, 1, 9, 10, 11, 12, 15, 25} {
 				for _, c := range []int{0, 3} {
@@ -534,7 +574,7 @@ func init() {
 			return f[1] + ":" + clause
 		},
 		Nontrivial: func(line, out string) bool { return true },
-		Rule:       "scenario scripts on the real Conn/Channel over the in-memory transport, each call under a 1.5 s watchdog: receives with a cancelled call/connection context (0..5 queued, 0..3 arriving packages, NextPackage and NextPackageUntil), sends with a cancelled context (lengths around the packet body size) followed by a live send, sends whose caller's / connection's context is cancelled while packet k of the message is written (every k), every call after Close, double Close, Conn.Close with 0..3 channels, Close with an abandoned response of capacity-2..capacity+8 packages, reader exit after 0..10 unconsumed read errors",
+		Rule:       "scenario scripts on the real Conn/Channel over the in-memory transport, each call under a 1.5 s watchdog: receives with a cancelled call/connection context (0..5 queued, 0..3 arriving packages, NextPackage and NextPackageUntil), sends with a cancelled context (lengths around the packet body size) followed by a live send, sends whose caller's / connection's context is cancelled while packet k of the message is written (every k), every call after Close, double Close, Conn.Close with 0..3 channels, Close with an abandoned response of capacity-2..capacity+8 packages, reader exit after 0..10 unconsumed read errors and after 3..15 packets for an unregistered channel",
 		Serial:     true,
 		Timed:      true, // answers depend on a 1.5 s watchdog: a failing case is re-run alone before it counts
 		NoShrink:   true,
